@@ -110,15 +110,17 @@ func init() {
 			r.call(hop("FindMinBy", "neg", nil, s))
 			r.call(hop("FindMaxBy", "sq", nil, s))
 		}
-		// ...ByKey: lists of up to 3 maps over keys {1,2}, values {1,2,3}, probing keys 1..3
+		// ...ByKey: lists of up to 3 maps over keys {1,2}, values negative, zero and positive (or absent),
+		// probing keys 1..3
+		const absent = 1 << 20
 		var ms [][]int
-		for _, v1 := range []int{0, 1, 3} {
-			for _, v2 := range []int{0, 2, 3} {
+		for _, v1 := range []int{absent, -3, -1, 2} {
+			for _, v2 := range []int{absent, -2, 0, 3} {
 				var m []int
-				if v1 > 0 {
+				if v1 != absent {
 					m = append(m, 1, v1)
 				}
-				if v2 > 0 {
+				if v2 != absent {
 					m = append(m, 2, v2)
 				}
 				ms = append(ms, m)
@@ -130,7 +132,8 @@ func init() {
 			lists = append(lists, [][]int{a})
 			for _, b := range ms {
 				lists = append(lists, [][]int{a, b})
-				for _, c := range ms[:4] {
+				for _, c := range []int{0, 1, 5, 7, 10, 15} {
+					c := ms[c]
 					lists = append(lists, [][]int{a, b, c})
 				}
 			}
